@@ -27,9 +27,16 @@ def mk_cell(S, p, k, fixed=False, region="_"):
 
 
 def bare_allocation(cells):
-    """An Allocation holding exactly `cells`, built without its constructor (whose contract is checked separately)."""
-    a = Allocation.__new__(Allocation)
-    a._allocations = [RectAlloc(r, al, d) for r, al, d in cells]
+    """An Allocation holding exactly `cells`.  The object is created by the REAL constructor (on a trivial concrete
+    allocation, so that whatever the constructor initialises exists) and its cell list is then replaced in place through
+    the public `allocations` list; the constructor's own contract (validation, areas, centres) is checked separately."""
+    saved = (Rectangle._distance_epsilon, Rectangle._area_epsilon)
+    Rectangle._distance_epsilon, Rectangle._area_epsilon = 1e-9, 1e-9     # concrete while the seed object is built
+    try:
+        a = Allocation([([1.0, 1.0, 2.0, 2.0], {"M0": 1.0})])
+    finally:
+        Rectangle._distance_epsilon, Rectangle._area_epsilon = saved
+    a.allocations[:] = [RectAlloc(r, al, d) for r, al, d in cells]
     return a
 
 
